@@ -214,7 +214,11 @@ class MinorSolution:
                 return f"{effect}.{rsid}"
             return rsid
 
-        for m in sorted(self.solution[i].added):
+        # Order by RefSeq position: the name should not depend on the strand of the build
+        def refseq_order(m):
+            return (gene.chr_to_ref.get(m.pos, m.pos), m.op)
+
+        for m in sorted(self.solution[i].added, key=refseq_order):
             if gene.is_functional(m, infer=False):
                 n.append(get_nice_snp_name(m))
         if not self.profile or not self.profile.display_format:
